@@ -209,15 +209,52 @@ def all_categories(kp):
     return {c.name for c in kp.TokenCategory}
 
 
+_DESC = {}
+
+
+def documented_descendants():
+    """category name -> set of the names of the category and all its descendants, read from the tree documented in
+    README.md (NOT from kernpy's own hierarchy functions: the oracle must not move with the code under test)"""
+    if not _DESC:
+        import re as _re
+        from harness import core as _core
+        parent, stack, started = {}, [], False
+        for line in open(_core.REPO + '/README.md', encoding='utf-8').read().splitlines():
+            m = _re.match(r'^((?:\u2502   |    )*)(\u251c\u2500\u2500 |\u2514\u2500\u2500 )(?:TokenCategory\.)?([A-Z_]+)\s*$', line)
+            if not m:
+                if started:
+                    break
+                continue
+            started = True
+            depth = len(m.group(1)) // 4
+            while len(stack) > depth:
+                stack.pop()
+            parent[m.group(3)] = stack[-1] if stack else None
+            stack.append(m.group(3))
+
+        def anc(c):
+            out = []
+            while c is not None:
+                out.append(c)
+                c = parent.get(c)
+            return out
+        for a in parent:
+            _DESC[a] = {c for c in parent if a in anc(c)}
+    return _DESC
+
+
 def closure(kp, include, exclude):
-    TC = kp.TokenCategory
-    inc = set(TC) if include is None else set()
+    """names selected by include / exclude: include categories with their descendants minus exclude with theirs
+    (descendants from the documented tree)"""
+    desc = documented_descendants()
+    names = [c.name for c in kp.TokenCategory]
+    inc = set(names) if include is None else set()
     for c in (include or []):
-        inc |= {TC[c]} | TC.nodes(TC[c])
+        inc |= desc.get(c, {c})
     exc = set()
     for c in (exclude or []):
-        exc |= {TC[c]} | TC.nodes(TC[c])
-    return {c.name for c in inc - exc}
+        exc |= desc.get(c, {c})
+    return inc - exc
 
 
 def clefs_in_force(rows):
